@@ -127,7 +127,7 @@ class C11(Check):
                 d, s = r.choice(pairs) if r.random() < 0.6 else gen_pair(r)
                 return {'delay': d, 'spread': s}
             return {}
-        spec = models.gen_net(rng, n_nodes=rng.randint(2, 5), libs=('lin', 'leak', 'sat', 'osc'), max_edges=6,
+        spec = models.gen_net(rng, n_nodes=rng.randint(2, 5), libs=('lin', 'leak', 'sat', 'osc', 'linl'), max_edges=6,
                               delays=delays, hier=rng.random() < 0.2)
         return {'spec': spec, 'cfg': cfg}
 
